@@ -453,9 +453,13 @@ def t_opt_barrier(facts, res, tier):
             for alt in alts:
                 arms[pat_text(alt)] = a
         handled = {}
+        extra_arms = {}
         for pt, a in arms.items():
             mm = re.match(r"^Some\(AsmLine::(\w+)", pt)
             if mm:
+                # an arm with a narrower pattern for the same kind of line (`Inline(_, 0)`) comes first and decides for the lines it matches
+                if mm.group(1) in handled and handled[mm.group(1)] is not a:
+                    extra_arms.setdefault(mm.group(1), []).append((pt, a))
                 handled[mm.group(1)] = a
         default = arms.get("_")
         after = reset_after(lp)
@@ -487,6 +491,13 @@ def t_opt_barrier(facts, res, tier):
                 return all("always" in summ.get(r, set()) for r in regs)
             if all(clears_all(mn) for mn in pinned):
                 fresh = True
+        for variant in ("Label", "Inline"):
+            for pt2, a2 in extra_arms.get(variant, []) + ([(p3, a3) for p3, a3 in arms.items() if re.match(r"^Some\(AsmLine::%s" % variant, p3) and a3 is not handled.get(variant)]):
+                bt2 = expr_text(a2["body"])
+                if not all(("%s=None" % v) in bt2 for v in regs) and not (after or fresh):
+                    k2 = "T-OPT-BARRIER:%s:%s:%s" % (role, variant, pt2.replace(" ", "")[:30])
+                    res.inst(k2, True, {"pattern": pt2})
+                    res.fail(k2, facts.where(fn, a2["body"]), "optimize(): the arm `%s` lets `%s` move past some AsmLine::%s lines without resetting the known register contents: such a line can be a label other code jumps to (`asm(\"\\nagain\", 0)`)" % (pt2, which, variant))
         for variant in ("Label", "Inline"):
             a = handled.get(variant, default)
             key = "T-OPT-BARRIER:%s:%s" % (role, variant)
